@@ -647,7 +647,7 @@ class Gen:
         "rehash": [("add", 14), ("copy", 5), ("touch", 2), ("delete", 8), ("corrupt", 6), ("corrupt_parity", 2), ("lose_disk", 2),
                    ("sync", 20), ("check", 6), ("fix", 8), ("scrub", 12), ("diff", 2), ("rehashcmd", 10)],
         "inodes": [("uuidswap", 3), ("add", 14), ("mv", 14), ("swapnames", 8), ("twin", 6), ("reinode", 6), ("samesize", 4), ("samesec", 3), ("touch", 3),
-                   ("delete", 6), ("restore", 3), ("sync", 20), ("diff", 8), ("check", 5), ("list", 2)],
+                   ("delete", 6), ("restore", 3), ("sync", 20), ("diff", 8), ("check", 5), ("list", 2), ("fix", 7), ("corrupt", 3)],
         "detect": [("reinode", 2), ("touch", 3), ("rehashcmd", 2), ("add", 8), ("delete", 3), ("corrupt", 14), ("corrupt_burst", 10), ("corrupt_parity", 14), ("sync", 14),
                    ("check", 18), ("scrub", 14), ("fix", 6)],
         "damage": [("reinode", 3), ("add", 10), ("delete", 6), ("corrupt", 14), ("corrupt_parity", 8), ("lose_disk", 6), ("lose_parity", 5),
